@@ -32,16 +32,16 @@ type c18Link struct {
 }
 
 type C18Plan struct {
-	N          int        `json:"n"`
-	Links      []c18Link  `json:"links"`
-	ServiceAdS int        `json:"service_ad_s"`
-	LateJoin   int        `json:"late_join"` // node index that joins late (-1: none)
+	N          int       `json:"n"`
+	Links      []c18Link `json:"links"`
+	ServiceAdS int       `json:"service_ad_s"`
+	LateJoin   int       `json:"late_join"` // node index that joins late (-1: none)
 	// that many times a listener is closed by its owner in the middle of a periodic advertisement round of its
 	// node, between the collection of the advertisements and their transmission
-	CloseInAdRound int `json:"close_in_ad_round"`
-	ReorderMs      int `json:"reorder_ms"` // datagram links deliver out of order within this window (0: in order)
-	Events     []c18Event `json:"events"`
-	Shrink     []string   `json:"_shrink"`
+	CloseInAdRound int        `json:"close_in_ad_round"`
+	ReorderMs      int        `json:"reorder_ms"` // datagram links deliver out of order within this window (0: in order)
+	Events         []c18Event `json:"events"`
+	Shrink         []string   `json:"_shrink"`
 }
 
 func genC18(seed uint64, tier string) any {
